@@ -786,7 +786,7 @@ impl WriterSet {
             self.segment_size,
         )?;
 
-        let (closed_event_index, closed_partition_index, closed_stream_index) = {
+        {
             let mut indexes = self.indexes.blocking_write();
             for PendingIndex {
                 event_id,
@@ -826,11 +826,20 @@ impl WriterSet {
             self.index_segment_id
                 .store(self.bucket_segment_id.segment_id, Ordering::Release);
 
-            (
-                closed_event_index,
-                closed_partition_index,
-                closed_stream_index,
-            )
+            // Install the sealed segment's indexes (and the new segment's reader) in the
+            // reader pool before the live indexes are unlocked: otherwise readers find
+            // the sealed segment's events neither in the (new, empty) live indexes nor
+            // in the reader pool until the installation below has reached every reader
+            // thread.
+            self.reader_pool.add_bucket_segment(
+                old_bucket_segment_id,
+                &old_reader,
+                Some(&closed_event_index),
+                Some(&closed_partition_index),
+                Some(&closed_stream_index),
+            );
+            self.reader_pool
+                .add_bucket_segment(self.bucket_segment_id, &self.reader, None, None, None);
         };
 
         #[cfg(sierradb_verif)]
@@ -841,13 +850,6 @@ impl WriterSet {
                 old_bucket_segment_id.segment_id as u64,
             ],
         );
-        self.reader_pool.add_bucket_segment(
-            old_bucket_segment_id,
-            &old_reader,
-            Some(&closed_event_index),
-            Some(&closed_partition_index),
-            Some(&closed_stream_index),
-        );
         #[cfg(sierradb_verif)]
         crate::verif::point(
             "rollover.installed_old",
@@ -856,8 +858,6 @@ impl WriterSet {
                 old_bucket_segment_id.segment_id as u64,
             ],
         );
-        self.reader_pool
-            .add_bucket_segment(self.bucket_segment_id, &self.reader, None, None, None);
         #[cfg(sierradb_verif)]
         crate::verif::point(
             "rollover.done",
